@@ -312,15 +312,10 @@ func (jenny RawTypes) defaultsForStruct(context languages.Context, objectRef ast
 				defaultValue = "*" + defaultValue
 			}
 		} else if field.Type.IsRef() && resolvedFieldType.IsEnum() {
-			memberName := resolvedFieldType.Enum.Values[0].Name
-			for _, member := range resolvedFieldType.Enum.Values {
-				if member.Value == field.Type.Default {
-					memberName = member.Name
-					break
-				}
-			}
+			// falls back to the first member
+			member, _ := resolvedFieldType.Enum.MemberForValue(field.Type.Default)
 
-			defaultValue = memberName
+			defaultValue = member.Name
 
 			referredPkg = jenny.packageMapper(field.Type.Ref.ReferredPkg)
 			if referredPkg != "" {
